@@ -110,7 +110,7 @@ NCorners == 2 * NV(1)
 CornerAsg(n) == Corner(((n - 1) \div 2) + 1, (n % 2) = 0)      \* n = 1..NCorners
 
 \* ---- greedy fill
-Rot(x, k, n) == ((x - 1 + Seed * k) % n) + 1                   \* tie-break order rotated by Seed
+Rot(x, k, n) == ((x - 1 + (Seed + 1) * k) % n) + 1                   \* tie-break order rotated by Seed
 
 \* number of still uncovered pairs that value v at dimension k forms with the dimensions fixed in pa (0 = not fixed)
 Gain(u, pa, k, v) ==
